@@ -48,3 +48,18 @@ package opset13
 //@   tags C15,C01,C18
 //@   ensures known: operatorType in operators13 ==> err == nil && result != nil && fresh(result) && isoperator(result)
 //@   ensures unknown: !(operatorType in operators13) ==> result == nil && errIs(err, ErrUnsupportedOperator)
+
+// ---------------------------------------------------------------------------------------
+// C02: operators never write to their input tensors (headers or contents), to package state or
+// to anything but their own attribute state and the objects they create.
+
+//@ family (*).Apply
+//@   tags C02
+//@   requires self != nil
+//@   scope inputs_validated: forall k :: 0 <= k && k < len(inputs) ==> inputs[k] != nil
+//@   modifies opstate(self)
+
+//@ family (*).Init
+//@   tags C02
+//@   requires self != nil
+//@   modifies opstate(self)
